@@ -24,8 +24,8 @@ import gc
 from sim import aioloop as A
 from sim import isolate
 from sim import threads as T
-from sim.adata import Events, make_async_data
-from sim.core import native_text, Outcome, digest, exc_key, internal_leak, scrub
+from sim.adata import Events, PrivateFault, make_async_data
+from sim.core import native_text, unescaped, Outcome, digest, exc_key, internal_leak, scrub
 from sim.envs import AE_MODES, CodeMemo, clear_process_caches
 from sim.tape import Tape
 from sim import workload as W
@@ -81,6 +81,7 @@ def setup() -> None:
     T.install(src, line_events=True, instr_classes=[U.LRUCache])
     U.Lock = T.SimLock
     T.neutralise_real_locks()
+    T.install_threading_factories()
     A.install_policy().factory = _loop_factory
     _setup_done = True
     isolate.start("props.c29")  # pre-warm a pristine interpreter for this worker's isolated references
@@ -362,12 +363,37 @@ def run_schedule(tape, out, P, cfg):
             ops.append((P.entry_points[tape.draw(len(P.entry_points))], tape.draw(4), tape.draw(nd)))
         progs.append(ops)
     cfg.memo = warm != 2
+    # one thread's data may raise (its k-th call of a data callable): the OTHER threads must be unaffected, and
+    # nobody may be left waiting for something the failed render was going to do
+    fthread = tape.draw(nt + 3, "f") - 1  # tape value 0 = no fault (the simplest choice)
+    if fthread < 0:
+        fthread = nt + 1
+    fk = 1 + tape.draw(5, "f")
+    fstate = {"n": 0, "fired": False}
+
+    def _wrap(fn):
+        def w(*a, **k):
+            st = T.current_thread()
+            if st is not None and st.tid == fthread and not fstate["fired"]:
+                fstate["n"] += 1
+                if fstate["n"] == fk:
+                    fstate["fired"] = True
+                    raise PrivateFault("injected in thread %d" % fthread)
+            return fn(*a, **k)
+        w.__qualname__ = getattr(fn, "__qualname__", "w")
+        return w
 
     def build():
         # process-global caches (lexer cache) start from the same state in every execution
         clear_process_caches()
         env = cfg.env(P)
         datas = [_mk_data(s, cfg.is_async, tape) for s in dseeds]
+        fstate["n"], fstate["fired"] = 0, False
+        if fthread < nt and not cfg.is_async:
+            for d_ in datas:
+                for name_ in ("f1", "f2"):
+                    d_[name_] = _wrap(d_[name_])
+            env.globals["gf"] = _wrap(env.globals["gf"])  # reachable from modules imported without context
         if warm != 2:
             env.lexer  # noqa: B018 - build the lexer outside the simulated run
         if warm != 2:
@@ -469,6 +495,10 @@ def run_schedule(tape, out, P, cfg):
             if key not in refs:
                 refs[key] = _reference(cfg, P, entry, api, dseeds[di])
             if results[tid][j] != refs[key] and mism is None:
+                r_ = results[tid][j]
+                if tid == fthread and r_ and r_[0] == "raised" and r_[1][0] == "PrivateFault":
+                    out.count("thread_fault_propagated")
+                    continue  # the render that met the injected fault
                 mism = (tid, j, results[tid][j], refs[key])
     sig = None
     if changed:
@@ -492,10 +522,36 @@ def run_schedule(tape, out, P, cfg):
                         ok2 = False
             if ok2:
                 out.known = "KF-C29-1"
+        if (out.known is None and mism and not changed and "module_eval_ctx" in P.tags and mism[2] and mism[2][0] == "ok"
+                and mism[3][0] == "ok" and not serial_ok_is_false(r0, mism)):
+            # KF-C37-1 under threads: an {% autoescape %} block inside a macro of a module imported without context
+            # switches the shared module context while another thread renders through it.  Only when EVERY
+            # mismatching render differs from its reference in nothing but escaping, the serial execution of the same
+            # thread programs is correct, and a fresh Environment per render removes the mismatch.
+            only_escaping = all(
+                results[t_][j_] == refs[(e_, a_, dseeds[d_])] or (
+                    results[t_][j_] and results[t_][j_][0] == "ok" and refs[(e_, a_, dseeds[d_])][0] == "ok")
+                for t_, ops_ in enumerate(progs) for j_, (e_, a_, d_) in enumerate(ops_))
+            if only_escaping:
+                env_, datas = build()
+                ok2 = True
+                for tid, ops in enumerate(progs):
+                    for j, (entry, api, di) in enumerate(ops):
+                        e2 = cfg.env(P)
+                        if _render(e2, entry, api, datas[di], Tape(streams={}))[0] != refs[(entry, api, dseeds[di])]:
+                            ok2 = False
+                if ok2:
+                    out.known = "KF-C37-1"
         out.violate(sig, **detail)
         return
     if sched.preempts_fired or sched.lock_blocks:
         out.case = digest(["sched", P.templates, progs, dseeds, sched.trace])
+
+
+def serial_ok_is_false(r0, mism) -> bool:
+    """True if the SERIAL execution of the thread programs already shows the mismatch (then it is not an interleaving)."""
+    tid, j, _got, want = mism
+    return r0[tid][j] != want
 
 
 def run(tape: Tape) -> Outcome:
@@ -511,7 +567,7 @@ def run(tape: Tape) -> Outcome:
     size = 1 + tape.draw(4)
     envcls = (0, 0, 0, 0, 0, 1, 2, 2)[tape.draw(8, "m")]
     P = Gen(tape, is_async=is_async, loopcontrols=lc, size=size, allow_module_state=tagged_ok,
-            env_globals=True, template_globals=True, native=envcls == 1).generate()
+            env_globals=True, template_globals=True, native=envcls == 1, pair_den=8).generate()
     TG.clear()
     # only the top-level template gets template-level globals: a template that is also included /
     # imported / extended elsewhere would (by documented design) keep them in the cache
